@@ -22,6 +22,10 @@ MANUAL = {
  "C12c-m1": ["binary_roundtrip__leaf"],
  "C08c-m1": ["typed_bytes__U8", "typed_bytes__S16"], "C08c-m2": ["limit_lengths__StrFixed"],
  "C02c-m1": ["@C03", "long_runs_roundtrip__tail0"],
+ "C19d-m1": ["acks_on_retransmission"], "C19d-m2": ["event_notify_matrix__one_shot", "event_notify_matrix__returns_true"],
+ "C07d-m2": ["event_notify_matrix__self_unsub_then_true", "event_notify_matrix__returns_unboolable"],
+ "C18d-m1": ["subfield_glob_filter__lt", "subfield_glob_filter__and"], "C17d-m2": ["teardown_requeue__undef_then_0", "teardown_requeue__undef_then_3"],
+ "C09d-m1": ["te_face_bitfield__pairs"], "C09d-m2": ["block_cache_isolation"], "C01d-m2": ["T_ImprovedInstantMessage"],
  "C18-m2": ["val_matches_matrix__startswith__*", "val_matches_matrix__endswith__*"],
  "regress-C18-inapplicable": ["val_matches_matrix__startswith__*", "val_matches_matrix__contains__*"],
  "C09-m2": ["payload_mut_TextureEntrySubfieldSerializer"], "C09-m1": ["payload_mut_PSBlockSerializer"],
@@ -29,8 +33,8 @@ MANUAL = {
  "regress-C05-packetack-leak": ["histories3__fwd"], "regress-C19-region-dedupe": ["ack_and_dedupe"],
  "regress-C07-queued-dropped": ["two_addons__first_0", "two_addons__first_3", "handler_isolation__session_sub_7"],
 }
-NOT_STRENGTHENED = {"C18-m2", "regress-C18-inapplicable", "C09-m1", "regress-C12-quat-uri", "regress-C16-proxy-cap", "regress-C05-packetack-leak", "regress-C19-region-dedupe", "regress-C07-queued-dropped"}
-STRENGTHENED = {"C08c-m1", "C08c-m2", "C16c-m2", "C06c-m2", "C02c-m2", "C12c-m1", "C03b-m1", "C03b-m2", "C08b-m1", "C12b-m1", "C13b-m2", "C06b-m1", "C05b-m2", "C16b-m1", "C16b-m2", "C02b-m2", "C01-m1", "C01-m2", "C10-m2", "C02-m2", "C02-m3", "C05-m1", "C06-m3", "C07-m1", "C07-m3", "C15-m3", "C16-m1", "C16-m2",
+NOT_STRENGTHENED = {"C09d-m2", "C01d-m2", "C19d-m1", "C19d-m2", "C07d-m2", "C18d-m1", "C17d-m2", "C09d-m1", "C18-m2", "regress-C18-inapplicable", "C09-m1", "regress-C12-quat-uri", "regress-C16-proxy-cap", "regress-C05-packetack-leak", "regress-C19-region-dedupe", "regress-C07-queued-dropped"}
+STRENGTHENED = {"C09d-m2", "C01d-m2", "C19d-m1", "C19d-m2", "C07d-m2", "C18d-m1", "C17d-m2", "C09d-m1", "C08c-m1", "C08c-m2", "C16c-m2", "C06c-m2", "C02c-m2", "C12c-m1", "C03b-m1", "C03b-m2", "C08b-m1", "C12b-m1", "C13b-m2", "C06b-m1", "C05b-m2", "C16b-m1", "C16b-m2", "C02b-m2", "C01-m1", "C01-m2", "C10-m2", "C02-m2", "C02-m3", "C05-m1", "C06-m3", "C07-m1", "C07-m3", "C15-m3", "C16-m1", "C16-m2",
                 "C16-m3", "C17-m2", "C17-m3", "C19-m2", "C12-m1", "C13-m1", "C20-m3", "C09-m2"}
 head = subprocess.run("git -C /repo rev-parse HEAD", shell=True, capture_output=True, text=True).stdout.strip()
 
